@@ -120,6 +120,10 @@ def handle (line : String) : String :=
     match runP p rest with
     | some s => s
     | none => "bad-op"
+  | "unravel" :: rest =>
+    match runP (do let w ← nat; let i ← nat; pure (w, i)) rest with
+    | some (w, i) => s!"ok {(unravel w i).1} {(unravel w i).2}"
+    | none => "bad-op"
   | "sizes" :: rest =>
     match runP (do let sn ← nat; let sd ← nat; let ms ← nat; let n ← nat; pure (sn, sd, ms, n)) rest with
     | some (sn, sd, ms, n) => s!"ok {resizeLen n ⟨sn, sd⟩} {padTo (resizeLen n ⟨sn, sd⟩) ms}"
